@@ -23,7 +23,7 @@ from harness.common.par import pmap
 from harness.common.tlc import MachineryError
 
 SPEC = os.path.join(tlc.SPECS, "registration")
-UPS = [1, 2, 3, 4, 8, 16, 64]
+UPS = [1, 2, 3, 4, 5, 7, 8, 16, 64]
 
 
 def same_shift(est, s, shape, tol):
@@ -45,7 +45,7 @@ def run_case(arg):
     est = np.array(case["est"], dtype=float)     # principal-cell value from the model
     shape = a.shape
     tag = f"shape={shape} shift={case['s']}"
-    ups = UPS if not quick else [1, 2, 4, 16]
+    ups = UPS if not quick else [1, 2, 3, 4, 16]
 
     def bad(key, msg):
         out.append((key, f"{tag}: {msg}"))
@@ -145,7 +145,7 @@ def subpixel_case(arg):
     b = np.fft.ifft2(np.fft.fft2(img) * np.exp(2j * np.pi * (kx * s[0] + ky * s[1]))).real
     tag = f"shape={shape} subpixel shift={s.tolist()}"
     try:
-        for u in ([2, 4, 8, 16, 64] if not quick else [2, 8, 16]):
+        for u in ([2, 3, 4, 5, 8, 16, 64] if not quick else [2, 3, 8, 16]):
             tol = 1.0 / u + 1e-6
             rn = np.asarray(cross_correlation_shift(img, b, upsample_factor=u), float)
             if not same_shift(rn, s, shape, tol):
@@ -158,7 +158,7 @@ def subpixel_case(arg):
                 out.append(("C13:torch:subpixel", f"{tag}: u={u}: returned {rt.tolist()} (tolerance {tol:.4f})"))
                 break
         # identical band-limited images: zero for every factor
-        for u in (1, 2, 4, 8, 16, 64):
+        for u in (1, 2, 3, 4, 5, 7, 8, 16, 64):
             z = np.asarray(cross_correlation_shift(img, img, upsample_factor=u), float)
             if not same_shift(z, [0, 0], shape, 1e-6):
                 out.append((f"C13:numpy:identical-nonzero:upsample{'>1' if u > 1 else '=1'}", f"{tag}: u={u}: identical smooth images gave {z.tolist()}"))
